@@ -6,6 +6,7 @@ import (
 	"context"
 	"errors"
 	"fmt"
+	"strings"
 	"sync"
 	"testing"
 	"testing/synctest"
@@ -19,14 +20,14 @@ import (
 	"github.com/openconfig/gnmi/connection"
 	"github.com/openconfig/gnmi/manager"
 	gpb "github.com/openconfig/gnmi/proto/gnmi"
-	tpb "github.com/openconfig/gnmi/proto/target"
 	"verif/harness/internal/vstat"
 )
 
 // DialEv is one call of the scripted dial function.
 type DialEv struct {
+	Dialer   int           `json:"dialer,omitempty"` // 0 = the default dialer's function, k = the k-th named dialer's
 	Addr     int           `json:"addr"`
-	K        int           `json:"k"`    // number of the dial to this address
+	K        int           `json:"k"`    // number of the dial this dialer made to this address
 	Kind     string        `json:"kind"` // DialStep.Kind ("ok" once the script is exhausted)
 	By       string        `json:"by"`   // target named by the metadata of the context the dial runs on (labels only)
 	Start    time.Duration `json:"start"`
@@ -41,13 +42,13 @@ func (d DialEv) String() string {
 	if d.Ended {
 		end = fmt.Sprintf("ended +%v %s", d.End, d.Outcome)
 	}
-	return fmt.Sprintf("dial #%d to %s (%s) started +%v by %s, %s", d.K, addrOf(d.Addr), d.Kind, d.Start, d.By, end)
+	return fmt.Sprintf("dial #%d of dialer %q to %s (%s) started +%v by %s, %s", d.K, dialerName(d.Dialer), addrOf(d.Addr), d.Kind, d.Start, d.By, end)
 }
 
 type realWorld struct {
 	cm      *connection.Manager
-	next    [nAddrs]int
-	abort   chan struct{} // closed by the clean-up: every pending and later dial fails at once
+	next    [maxNamedDialers + 1][nAddrs]int // dials made so far, per dial function and address
+	abort   chan struct{}                    // closed by the clean-up: every pending and later dial fails at once
 	created []*grpc.ClientConn
 	dials   []*DialEv
 }
@@ -63,10 +64,18 @@ func addrIndex(addr string) int {
 
 var defaultDialStep = DialStep{Kind: "ok"}
 
-// dialFn is the connection.Dial the real connection manager is built with.
-// Whatever it is scripted to do, it returns as soon as the context it was given
-// ends (as grpc.DialContext with grpc.WithBlock does).
-func (w *world) dialFn(ctx context.Context, addr string, opts ...grpc.DialOption) (*grpc.ClientConn, error) {
+// dialFnFor is the connection.Dial registered under dialer di (0 = connection.DEFAULT).
+func (w *world) dialFnFor(di int) connection.Dial {
+	return func(ctx context.Context, addr string, opts ...grpc.DialOption) (*grpc.ClientConn, error) {
+		return w.dialFn(di, ctx, addr, opts...)
+	}
+}
+
+// dialFn is what the dial functions the real connection manager is built with
+// do: the k-th call of dialer di for an address follows the k-th step of that
+// dialer's script for the address. Whatever it is scripted to do, it returns as
+// soon as the context it was given ends (as grpc.DialContext with grpc.WithBlock does).
+func (w *world) dialFn(di int, ctx context.Context, addr string, opts ...grpc.DialOption) (*grpc.ClientConn, error) {
 	rw := w.real
 	ai := addrIndex(addr)
 	if ai < 0 {
@@ -75,13 +84,10 @@ func (w *world) dialFn(ctx context.Context, addr string, opts ...grpc.DialOption
 	}
 	_, hasDL := ctx.Deadline()
 	w.mu.Lock()
-	k := rw.next[ai]
-	rw.next[ai]++
-	step := defaultDialStep
-	if ai < len(w.sc.Dials) && k < len(w.sc.Dials[ai]) {
-		step = w.sc.Dials[ai][k]
-	}
-	ev := &DialEv{Addr: ai, K: k, Kind: step.Kind, By: targetOf(ctx), Start: time.Since(w.t0), Deadline: hasDL}
+	k := rw.next[di][ai]
+	rw.next[di][ai]++
+	step := w.sc.dialStepAt(di, ai, k)
+	ev := &DialEv{Dialer: di, Addr: ai, K: k, Kind: step.Kind, By: targetOf(ctx), Start: time.Since(w.t0), Deadline: hasDL}
 	rw.dials = append(rw.dials, ev)
 	w.mu.Unlock()
 
@@ -196,25 +202,35 @@ func (r realCM) Connection(ctx context.Context, addr, dialer string) (*grpc.Clie
 	tg.next++
 	tg.cur = ar
 	w.mu.Unlock()
-	if addr != addrOf(tg.spec.Addr) {
-		w.flagHarness("target %s asked for %q, configured %q", name, addr, addrOf(tg.spec.Addr))
+	ai := addrIndex(addr)
+	if ai < 0 || !tg.spec.names(ai) {
+		w.flagHarness("target %s asked for %q, which is not the next hop of any of its address lines", name, addr)
+		return nil, func() {}, errRefused
+	}
+	if dialer != dialerName(tg.spec.Dialer) {
+		w.flagHarness("target %s: Connection asked for dialer %q, configured %q", name, dialer, dialerName(tg.spec.Dialer))
 	}
 	w.rec(name, kDialStart, ar.n, 0, nil, addr)
 	conn, done, err := w.real.cm.Connection(ctx, addr, dialer)
 	if err != nil {
-		w.rec(name, kDialResult, ar.n, 0, err, "real")
+		info := "real"
+		if ctx.Err() != nil {
+			// the context of the call has ended (Remove, Reconnect, dial deadline)
+			info = "real ctx-done"
+		}
+		w.rec(name, kDialResult, ar.n, 0, err, info)
 		return conn, done, err
 	}
 	w.mu.Lock()
 	ar.conn = conn
-	w.refs[tg.spec.Addr]++
+	w.refs[ai]++
 	w.mu.Unlock()
 	w.rec(name, kDialResult, ar.n, 0, nil, "real")
 	var once sync.Once
 	return conn, func() {
 		once.Do(func() {
 			w.mu.Lock()
-			w.refs[tg.spec.Addr]--
+			w.refs[ai]--
 			w.mu.Unlock()
 			w.rec(name, kRelease, ar.n, 0, nil, "")
 		})
@@ -294,7 +310,11 @@ func runReal(t *testing.T, w *world) (st *stats, trace []Ev, err error) {
 		st, jerr = judge(sc, trace)
 	}
 	realLabels(sc, trace, dials, st)
-	if derr := checkDialBound(sc, trace, dials); derr != nil {
+	derr := checkDialBound(sc, trace, dials)
+	if derr == nil {
+		derr = checkFreshDials(sc, trace, dials)
+	}
+	if derr != nil {
 		if runErr != nil {
 			msg := derr.Error()
 			var f *failure
@@ -395,6 +415,24 @@ func realLabels(sc *Scenario, trace []Ev, dials []DialEv, st *stats) {
 	default:
 		st.label("dial-timeout=large")
 	}
+	// the dial functions' own record: which dialer's function was called, and
+	// whether a failed dial of a dialer to an address was followed by another one
+	type da struct{ dialer, addr int }
+	failedBefore := map[da]bool{}
+	for _, d := range dials {
+		st.label("dialfn-of-dialer:" + dialerClass(d.Dialer))
+		k := da{d.Dialer, d.Addr}
+		if failedBefore[k] {
+			st.label("redial-after-failed-dial:" + dialerClass(d.Dialer))
+			if d.Dialer > 0 {
+				st.realNamedRedials++
+			}
+		}
+		if d.Ended && !dialSucceeded(d.Outcome) && d.Outcome != "abort" {
+			failedBefore[k] = true
+			st.label("dial-failed:" + dialerClass(d.Dialer))
+		}
+	}
 	for _, d := range dials {
 		if !d.Ended {
 			st.label("dialfn:" + d.Kind + ":never-ended")
@@ -414,20 +452,27 @@ func realLabels(sc *Scenario, trace []Ev, dials []DialEv, st *stats) {
 			st.label("dialfn-ended-by-cancellation")
 		}
 		if d.Kind == "slow-ok" || d.Kind == "slow-refused" {
-			if sc.DialTimeoutMs > 0 && sc.Dials[d.Addr][d.K].Ms > sc.DialTimeoutMs {
+			if sc.DialTimeoutMs > 0 && sc.dialStepAt(d.Dialer, d.Addr, d.K).Ms > sc.DialTimeoutMs {
 				st.label("dialfn-scripted-longer-than-dial-timeout")
 			} else if sc.DialTimeoutMs > 0 {
 				st.label("dialfn-scripted-shorter-than-dial-timeout")
 			}
 		}
 	}
-	// pendingDial: the dial function call to the address of tgt in progress at instant at (nil if none)
+	// pendingDial: the dial function call in progress at instant at (nil if none) to
+	// the address tgt has asked for last - before its first call: to any of its next hops
+	callAddr := map[string]int{}
 	pendingDial := func(tgt string, at time.Duration) *DialEv {
-		ai := sc.Targets[idxOf(tgt)].Addr
+		hops := sc.Targets[idxOf(tgt)].nextHops()
+		if ai, ok := callAddr[tgt]; ok {
+			hops = []int{ai}
+		}
 		for i := range dials {
 			d := &dials[i]
-			if d.Addr == ai && d.Start <= at && (!d.Ended || d.End > at) {
-				return d
+			for _, ai := range hops {
+				if d.Addr == ai && d.Start <= at && (!d.Ended || d.End > at) {
+					return d
+				}
 			}
 		}
 		return nil
@@ -447,14 +492,25 @@ func realLabels(sc *Scenario, trace []Ev, dials []DialEv, st *stats) {
 		switch e.Kind {
 		case kDialStart:
 			outstanding[e.Tgt] = true
+			callAddr[e.Tgt] = addrIndex(e.Info)
 			if d := pendingDial(e.Tgt, e.At); d != nil && d.By != e.Tgt {
 				st.label("joined-a-pending-shared-dial")
 				if d.Start < e.At {
 					st.label("joined-a-shared-dial-begun-earlier")
 				}
+				if d.Dialer != sc.Targets[idxOf(e.Tgt)].Dialer {
+					st.label("joined-a-dial-of-another-dialer")
+				}
 			}
 		case kDialResult:
 			outstanding[e.Tgt] = false
+			if strings.Contains(e.Err, "no such dialer") {
+				st.label("no-such-dialer-reported")
+			}
+		case kAddRet:
+			if e.Info != "duplicate" {
+				delete(callAddr, e.Tgt)
+			}
 		case kRemoveCall:
 			removeAt[e.Tgt] = e.At
 			if e.Info == "event" && outstanding[e.Tgt] {
@@ -487,13 +543,91 @@ func realLabels(sc *Scenario, trace []Ev, dials []DialEv, st *stats) {
 			}
 		}
 	}
-	if st.realBlockedDials > 0 && (st.realDeadlineEnds > 0 || st.realOpDuringDial > 0) {
+	if st.realNontrivial() {
 		st.label("real-nontrivial")
 	}
 }
 
 func (s *stats) realNontrivial() bool {
-	return s != nil && s.realBlockedDials > 0 && (s.realDeadlineEnds > 0 || s.realOpDuringDial > 0)
+	return s != nil && (s.realBlockedDials > 0 && (s.realDeadlineEnds > 0 || s.realOpDuringDial > 0) || s.realNamedRedials > 0)
+}
+
+func dialSucceeded(outcome string) bool {
+	return outcome == "ok" || strings.HasPrefix(outcome, "late-ok")
+}
+
+// checkFreshDials. Clause: failed sessions are RETRIED - judged on the dial
+// functions' own record. A Connection call of the manager that is answered with
+// an error reports the failure of an attempt to reach the address; that attempt
+// is a call of a dial function to the address which ended, unsuccessfully, while
+// the Connection call was outstanding (the caller started it, or joined the one
+// in progress). An error handed out when no dial function call to the address
+// ended between the call and its answer is the failure of an EARLIER attempt:
+// nothing was retried, whatever the number of ConnectError reports. Two answers
+// need no dial function: the context of the call had already ended (Remove,
+// Reconnect, dial deadline), and "no such dialer" for an address that a target
+// configured with a dialer name that is not registered names.
+func checkFreshDials(sc *Scenario, trace []Ev, dials []DialEv) error {
+	type key struct {
+		tgt string
+		n   int
+	}
+	open := map[key]int{}
+	for i, e := range trace {
+		switch e.Kind {
+		case kDialStart:
+			open[key{e.Tgt, e.N}] = i
+		case kDialResult:
+			k := key{e.Tgt, e.N}
+			j, ok := open[k]
+			if !ok {
+				continue
+			}
+			delete(open, k)
+			if e.Err == "" || !strings.HasPrefix(e.Info, "real") || strings.Contains(e.Info, "ctx-done") {
+				continue
+			}
+			ai := addrIndex(trace[j].Info)
+			if strings.Contains(e.Err, "no such dialer") {
+				unregistered := false
+				for t := range sc.Targets {
+					unregistered = unregistered || (sc.Targets[t].Dialer == unregisteredDialer && sc.Targets[t].names(ai))
+				}
+				if unregistered {
+					continue
+				}
+			}
+			called, answered := trace[j].At, e.At
+			fresh, calls := false, 0
+			var last *DialEv
+			for d := range dials {
+				dv := &dials[d]
+				if dv.Addr != ai {
+					continue
+				}
+				calls++
+				if !dv.Ended {
+					continue
+				}
+				if last == nil || dv.End > last.End {
+					last = dv
+				}
+				if !dialSucceeded(dv.Outcome) && dv.End >= called && dv.End <= answered {
+					fresh = true
+				}
+			}
+			if fresh {
+				continue
+			}
+			lastTxt := "no dial function was ever called for the address"
+			if last != nil {
+				lastTxt = "the last one to end is " + last.String()
+			}
+			return failf("retry-without-dial", "target %s (dialer %q): the connection attempt n=%d begun at +%v was answered at +%v with the error %q, but no call of a dial function to %s ended in failure between those instants (%d call(s) to the address in the whole case; %s): what is reported is not the failure of a new attempt - the target is not retried\ntrace of the target up to there:\n%s%s",
+				e.Tgt, dialerName(sc.Targets[idxOf(e.Tgt)].Dialer), e.N, called, answered, e.Err, trace[j].Info, calls, lastTxt, renderTail(trace, i, e.Tgt, 12), renderDials(dials))
+		}
+	}
+	return nil
 }
 
 // executeReal runs inside the bubble, on its root goroutine.
@@ -501,8 +635,12 @@ func (w *world) executeReal() (err error) {
 	sc := w.sc
 	rw := w.real
 	rw.abort = make(chan struct{})
-	cm, cerr := connection.NewManagerCustom(map[string]connection.Dial{connection.DEFAULT: w.dialFn},
-		grpc.WithTransportCredentials(insecure.NewCredentials()))
+	// the default dialer and the named ones; dialerName(unregisteredDialer) is never registered
+	dialFns := map[string]connection.Dial{connection.DEFAULT: w.dialFnFor(0)}
+	for k := 1; k <= len(sc.NamedDials); k++ {
+		dialFns[dialerName(k)] = w.dialFnFor(k)
+	}
+	cm, cerr := connection.NewManagerCustom(dialFns, grpc.WithTransportCredentials(insecure.NewCredentials()))
 	if cerr != nil {
 		return failf("harness-error", "connection.NewManagerCustom: %v", cerr)
 	}
@@ -519,17 +657,19 @@ func (w *world) executeReal() (err error) {
 		cfg.ConnectError = func(name string, err error) { w.rec(name, kConnectError, -1, 0, err, "") }
 		cfg.MonitorError = func(name string, err error) { w.rec(name, kMonitorError, -1, 0, err, "") }
 	}
+	if !sc.NoCredClient {
+		cfg.Credentials = scriptedCreds{w}
+	}
 	m, nerr := manager.NewManager(cfg)
 	if nerr != nil {
 		return failf("harness-error", "NewManager: %v", nerr)
 	}
 	tmpl := requestTemplate(sc.TmplPrefix)
 	pristine := proto.Clone(tmpl)
-	protos := make([]*tpb.Target, len(sc.Targets))
+	protos := sc.buildProtos()
 	for i := range sc.Targets {
 		spec := &sc.Targets[i]
 		w.tg[tname(i)] = &tgRun{name: tname(i), idx: i, spec: spec}
-		protos[i] = &tpb.Target{Addresses: []string{addrOf(spec.Addr)}}
 	}
 	managed := map[string]bool{}
 	w.t0 = time.Now()
@@ -548,7 +688,7 @@ func (w *world) executeReal() (err error) {
 			info = "duplicate"
 		}
 		w.rec(name, kAddCall, -1, 0, nil, info)
-		aerr := m.Add(name, protos[i], tmpl)
+		aerr := m.Add(name, sc.protoForAdd(protos, i), tmpl)
 		w.rec(name, kAddRet, -1, 0, aerr, info)
 		if aerr == nil {
 			managed[name] = true
